@@ -16,6 +16,9 @@ func init() {
 	register(&Rule{Name: "nil.maplookup", Floor: 2,
 		Doc: "a pointer obtained from a single-value map lookup is not dereferenced without a dominating nil/ok test, unless the key is the range key of a loop over that same map",
 		Run: ruleNilMapLookup})
+	register(&Rule{Name: "pool.keys", Floor: 1,
+		Doc: "within one pool method, every (validator, epoch) Assignment key that indexes the same bookkeeping map derives its epoch from the same expression (a key built from another epoch in one branch is never found by the sibling branch's lookup)",
+		Run: rulePoolKeys})
 	register(&Rule{Name: "index.guard", Floor: 2,
 		Doc: "a slice index s[i] guarded by a comparison of i with len(s) must exclude i == len(s) (`i > len(s)` before s[i] lets the index one past the end through)",
 		Run: ruleIndexGuard})
@@ -512,3 +515,56 @@ func terminates(b *ast.BlockStmt) bool {
 }
 
 var _ = sort.Strings
+
+func rulePoolKeys(c *Ctx) {
+	pk := c.P.Pkg("eth2/pool")
+	if pk == nil {
+		anchorFail("package pool not loaded")
+	}
+	info := pk.TypesInfo
+	for _, file := range pk.Syntax {
+		for _, d := range file.Decls {
+			fd, ok := d.(*ast.FuncDecl)
+			if !ok || fd.Body == nil {
+				continue
+			}
+			type lit struct {
+				epoch string
+				pos   token.Pos
+			}
+			var lits []lit
+			ast.Inspect(fd.Body, func(n ast.Node) bool {
+				cl, ok := n.(*ast.CompositeLit)
+				if !ok {
+					return true
+				}
+				if nt := namedOf(info.TypeOf(cl)); nt == nil || nt.Obj().Name() != "Assignment" {
+					return true
+				}
+				for _, el := range cl.Elts {
+					if kv, ok := el.(*ast.KeyValueExpr); ok {
+						if k, ok := kv.Key.(*ast.Ident); ok && k.Name == "Epoch" {
+							lits = append(lits, lit{types.ExprString(kv.Value), cl.Pos()})
+						}
+					}
+				}
+				return true
+			})
+			if len(lits) < 2 {
+				continue
+			}
+			key := "pool." + funcName(fd) + ":Assignment.Epoch"
+			bad := false
+			for _, l := range lits[1:] {
+				if l.epoch != lits[0].epoch {
+					bad = true
+					c.bad(key, l.pos, "one key is built with Epoch: %s, a sibling key in the same method with Epoch: %s: entries recorded under one are never found under the other (a conflicting vote in the same target epoch goes unreported)", lits[0].epoch, l.epoch)
+					break
+				}
+			}
+			if !bad {
+				c.ok(key, lits[0].pos, "%d keys, all with Epoch: %s", len(lits), lits[0].epoch)
+			}
+		}
+	}
+}
